@@ -14,12 +14,14 @@ CHECKS = {
  "C02": ("model_checking", "TLC checks the per-match accounting predicate (executed+remaining, completion flag, transaction fields, fresh ids, filled list, per-id conservation) on every match of every bounded model history and on every match recorded from the real crate.", "TLA+ model (TLC) + trace validation + replay", SEQ_NOTE, "6 C02"),
  "C03": ("model_checking", "TLC explores every interleaving of the micro-step model for every program in the scenario set and checks conservation at quiescence; one schedule per distinct terminal model state is replayed in the real crate under the baton scheduler and DFS/PCT schedules of the real code are validated event by event with the event-driven conservation ghost.", "TLA+ model (TLC, all interleavings) + scheduled replay + trace validation", CONC_NOTE, "6 C03"),
  "C04": ("model_checking", "Time priority is judged per call on the effective arrival order (order transition + maker sequence vs the ideal sweep); TLC shows on all bounded histories that the only deviations of the code's design are the two listed known findings, and evaluates the same predicate on recorded real histories.", "TLA+ model (TLC) + trace validation + replay", SEQ_NOTE, "6 C04"),
+ "C05": ("model_checking", "TLC checks the documented rule on the full small grid of orders x incoming quantities of the TLA+ transcription of match_against; Apalache proves it for ALL non-negative integers (64-bit included); the real match_against is run on exactly the model-checked grid (validated by TLC, set equality of inputs) and on 64-bit boundary inputs (validated by Apalache against the same operator).", "TLA+ rule (TLC grid + Apalache symbolic) + validation of recorded match_against calls", "Trusted: TLC, Apalache/z3, ApaMatch tied to Orders.tla by ApaEquiv (TLC, grid + perturbed results). Precondition displayed+hidden <= u64::MAX.", "6 C05"),
  "C06": ("model_checking", "Termination is the fuel-bounded RunCall of the micro-step model never running out of fuel on any reachable state x match size (the unfixed instance does); on the real crate a step budget in the scheduler hook turns a spin into a recorded Hang. The two return conditions are evaluated on every model and every recorded match.", "TLA+ model (TLC) + trace validation + replay with step budget", SEQ_NOTE, "6 C06"),
  "C07": ("model_checking", "Per-call predicate for all five update kinds, present/absent ids, equal/different prices and read-only calls (full-state purity), checked by TLC on the model and on recorded real histories.", "TLA+ model (TLC) + trace validation + replay", SEQ_NOTE, "6 C07"),
  "C08": ("model_checking", "Ticket-coverage invariant in every state of every interleaving plus the drained-book condition after a final draining match, in the model and on recorded/replayed real executions.", "TLA+ model (TLC, all interleavings) + scheduled replay + trace validation", CONC_NOTE, "6 C08"),
  "C12": ("model_checking", "Range invariant on the three aggregates in EVERY state of every interleaving of the model; on the real crate the observer reads the aggregates after every hooked step (stop-the-world) and TLC evaluates the invariant on every recorded line.", "TLA+ model (TLC, all interleavings) + scheduled replay + trace validation", CONC_NOTE, "6 C12"),
  "C13": ("model_checking", "Not-found truthfulness and finality of a successful cancel as event-driven ghost predicates, in every interleaving of the model and on recorded real executions; the hand-over window is a listed known finding identified by its causal pattern.", "TLA+ model (TLC, all interleavings) + scheduled replay + trace validation", CONC_NOTE, "6 C13"),
  "C14": ("model_checking", "Uniqueness of issued transaction ids with concurrent matchers sharing one generator (counter step is a hooked, schedulable operation), in the model and on recorded executions; ids are mapped back to v5(namespace, n).", "TLA+ model (TLC, all interleavings) + scheduled replay + trace validation", CONC_NOTE, "6 C14"),
+ "C19": ("model_checking", "TLC checks the per-call FIFO predicate (ideal queue ghost) on every call sequence up to 6 (quick) / 8 (thorough) calls over 3 ids of the TLA+ queue model; all model sequences are replayed on the real OrderQueue and random sequences plus the construction paths (list, text, JSON) are validated by TLC; re-push after removal is a listed known finding identified by its pattern.", "TLA+ model (TLC) + trace validation + replay", "Trusted: TLC, shim, harness. Ids pushed once or re-pushed after removal.", "6 C19"),
  "C15": ("model_checking", "Statistics = event counts at quiescence; the concurrent model run has every statistics fetch_add as its own step.", "TLA+ model (TLC, all interleavings) + scheduled replay + trace validation", CONC_NOTE, "6 C15"),
 }
 
